@@ -96,6 +96,48 @@ def gen(rng, ctx):
     return ops
 
 
+def garbage_part(ctx):
+    """real OpenSSL: garbage instead of / during the TLS handshake on a new connection while an established connection idles
+    in the same thread"""
+    from gen import systls
+    from gen.common import hexs
+    exe = systls.build()
+    rng = ctx.rng.fork("garb")
+    blobs = [b"GET / HTTP/1.1\r\n\r\n", b"\x16\x03\x01\x00\x05\xde\xad\xbe\xef\x00", b"\x00" * 40, b"\xff" * 300,
+             b"\x16\x03\x03\xff\xff" + b"A" * 64, b"SSH-2.0-OpenSSH_9.2\r\n", b"\x15\x03\x03\x00\x02\x02\x28"]
+    for _ in range(4 if ctx.tier == "quick" else 60):
+        blobs.append(rng.bytes(rng.range(1, 400)))
+    cmds = ["D a1 rootA -"]
+    for proto in ("btls", "tls"):
+        for b in blobs:
+            for chunk in ((0,) if ctx.tier == "quick" else (0, 1, 7)):
+                cmds.append("GARB %s %s %d" % (proto, hexs(b), chunk))
+    rc, out, err = systls.run(exe, cmds, ctx, timeout=1500)
+    ctx.traces += 1
+    if rc != 0 or len(out) != len(cmds):
+        ctx.violation("sys_tls:crash:" + common.crash_site(err), "sys_tls died at %r (garbage during the TLS handshake)" % cmds[min(len(out), len(cmds) - 1)][:200],
+                      {"harness": "sys_tls", "ops": [cmds[0], cmds[min(len(out), len(cmds) - 1)]], "stderr": err[-3000:]})
+        return
+    for cmd, il in zip(cmds[1:], out[1:]):
+        ctx.evaluations += 1
+        rep = {"harness": "sys_tls", "ops": [cmds[0], cmd], "impl_out": il}
+        if il.startswith("fail"):
+            ctx.corr_break("sys_tls", "%s: %s" % (cmd[:80], il), rep)
+            continue
+        f = systls.fields(il)
+        ctx.nontriv(("garb", cmd.split()[1], f["garbage"]))
+        ctx.count("c07.garbage." + f["garbage"])
+        if f["garbage"] == "ok":
+            ctx.violation("sys_tls:garbage:accepted", "a connection on which the peer sent garbage instead of a TLS handshake became usable: %s" % il, rep)
+        elif f["garbage"] not in ("EPROTO", "accept:EPROTO", "none", "EPIPE", "accept:EPIPE", "ECONNRESET", "accept:ECONNRESET"):
+            ctx.corr_break("sys_tls", "garbage during the handshake reported as %s" % f["garbage"], rep)
+        if not (f["b_acc_recv"] == "EAGAIN" and f["b_cli_recv"] == "EAGAIN" and f["b_acc_finish"] == "ok" and f["c2s"][0] == "1" and f["s2c"][0] == "1"):
+            ctx.violation("sys_tls:garbage:harms-other-connection", "garbage received on one connection damaged an established connection served by the same thread: %s" % il, rep)
+    ctx.rule += (" sys_tls GARB: real tls/btls servers with real OpenSSL: a raw TCP peer writes garbage (plain-text protocols, broken records, random bytes; "
+                 "in one piece, byte by byte, in 7-byte pieces) instead of a handshake while an established connection idles in the same thread: the "
+                 "garbage connection must fail (EPROTO), the established one must see EAGAIN and keep working.")
+
+
 def run(ctx):
     quick = ctx.tier == "quick"
     ctx.rule = ("unit_framing(tcp|tls) receive side against hostile streams: valid frames followed by a header announcing "
@@ -125,6 +167,7 @@ def run(ctx):
     ctx.assumptions += ["garbage during/instead of the TLS handshake is handled by OpenSSL and xcm_tp_btls.c; it is not part of "
                         "this unit-level check (see the C06/C09 checks and the system harness)",
                         "C-level memory safety only via the model's abort outcome + ASan/UBSan on the sampled runs"]
+    garbage_part(ctx)
     from gen import btls as _btls
     _btls.run_part(ctx, 40 if quick else 2000, exhaustive=True)
     ctx.rule += (" unit_btls: the real xcm_tp_btls.c with scripted OpenSSL answers (SSL_ERROR_SSL, SSL_ERROR_SYSCALL with a queued "
@@ -137,4 +180,7 @@ def replay(path):
     if r.get("harness") == "unit_btls":
         from gen import btls as _btls
         return _btls.replay(r)
+    if r.get("harness") == "sys_tls":
+        from gen.props import C09
+        return C09.replay(path)
     return _replay01(path)
